@@ -3,11 +3,12 @@
    [T1] (specification level): all proved, for all values.
    NOTE: the relation of C18_canon_unique is value_eqs (no list upgrade), not Equal's value_eq:
    a primitive list and the equivalent struct list are value_eq but have different canonical forms.
-   [T2] (canon_m_correct_statement: the Go-faithful model computes canon of the denoted value) is
-   stated in full and proved in stages (null struct; canonicalStructSize for every struct; end to
-   end for all-default structs); the heap-level induction is open and covered by the run. *)
+   [T2] (the Go-faithful model computes canon of the denoted value) is proved by a heap-level
+   induction for every value without capabilities, bit lists and struct lists (cdom), any depth:
+   C18_canon_m_correct_cdom and its three consequences; bit lists and struct lists are open and
+   covered by the run. *)
 From CV Require Import Value.ValueEq Value.CanonSpec Value.CanonProofs Value.CanonProofs2 Value.CanonProofs3
-                       Value.EqualM Value.CanonM Value.EqualProofs Value.CanonMProofs Value.CanonMStruct Value.CanonMWords Value.CanonMData Value.CanonMHeap Value.CanonMLoop Value.CanonMInd Value.Den.
+                       Value.EqualM Value.CanonM Value.EqualProofs Value.CanonMProofs Value.CanonMStruct Value.CanonMWords Value.CanonMData Value.CanonMHeap Value.CanonMLoop Value.CanonMInd Value.CanonMTop Value.Den.
 From CV Require Import Core.ReaderFacts Core.SafetyProofs Core.ArithFacts.
 Open Scope Z_scope.
 
@@ -148,28 +149,67 @@ Theorem C18_placed_list_word : forall off lt n, 0 <= lt < 8 -> 0 <= n < 53687091
 Proof. exact placed_list_word. Qed.
 Print Assumptions C18_placed_list_word.
 
-(* consequences of the full [T2] statement together with the proved [T1] theorems *)
-Theorem C18_canon_m_layout_independent_if : canon_m_correct_statement ->
-  forall fuel c fx m1 rl1 s1 v1 m2 rl2 s2 v2 bs1 bs2 r1 r2,
-    all_cfixed fx -> cfg_strict c = true -> msg_ok m1 -> msg_ok m2 -> wf_ptr m1 s1 -> wf_ptr m2 s2 ->
-    (p_valid s1 = true -> p_kind s1 = KStruct /\ DataSize (p_size s1) mod 8 = 0) ->
-    (p_valid s2 = true -> p_kind s2 = KStruct /\ DataSize (p_size s2) mod 8 = 0) ->
-    den true m1 0 [] s1 v1 -> den true m2 0 [] s2 v2 ->
-    nocap v1 = true -> value_eqs v1 v2 = true ->
-    canonicalize c fx fuel m1 rl1 s1 = (KOk bs1, r1) -> canonicalize c fx fuel m2 rl2 s2 = (KOk bs2, r2) ->
-    bs1 = bs2.
-Proof. exact canon_m_layout_independent_if. Qed.
-Print Assumptions C18_canon_m_layout_independent_if.
+(* [T2] on the proved domain.  cdom v: v contains no capability, no bit list and no struct list
+   (structs, void / 1,2,4,8-byte / pointer lists, nested to any depth).  Whenever Canonicalize
+   (repaired, strict reader, well-formed source) returns bytes for such a value, they are the
+   specification's canonical form of the value the struct denotes. *)
+Theorem C18_canon_m_correct_cdom : forall fuel c fx m rl s v bs rl',
+  all_cfixed fx -> cfg_strict c = true -> msg_ok m -> wf_ptr m s ->
+  (p_valid s = true -> p_kind s = KStruct /\ DataSize (p_size s) mod 8 = 0) ->
+  den true m 0 [] s v -> cdom v = true ->
+  canonicalize c fx fuel m rl s = (KOk bs, rl') -> canon v = Some bs.
+Proof. exact canon_m_correct_cdom. Qed.
+Print Assumptions C18_canon_m_correct_cdom.
 
-Theorem C18_canon_m_value_preserved_if : canon_m_correct_statement ->
-  forall fuel c fx m rl s v bs r,
-    all_cfixed fx -> cfg_strict c = true -> msg_ok m -> wf_ptr m s ->
-    (p_valid s = true -> p_kind s = KStruct /\ DataSize (p_size s) mod 8 = 0) ->
-    den true m 0 [] s v -> good v ->
-    canonicalize c fx fuel m rl s = (KOk bs, r) ->
-    exists v', cdecode (S (vdepth (norm v))) bs = Some v' /\ value_eqs v' v = true /\ value_eq v' v = true.
-Proof. exact canon_m_value_preserved_if. Qed.
-Print Assumptions C18_canon_m_value_preserved_if.
+(* the invariant behind it, for every fuel: canonicalPtr / fillCanonicalStruct / canonicalList
+   append the canonical words of the object at the end of the single destination segment *)
+Theorem C18_Q_all : forall c fx m, cfg_strict c = true -> all_cfixed fx -> msg_ok m ->
+  forall f, Q_ptr c fx m f /\ Q_fill c fx m f /\ Q_list c fx m f.
+Proof. exact Q_all. Qed.
+Print Assumptions C18_Q_all.
+
+(* non-vacuity: a concrete message (struct with a byte list and a pointer list) satisfies every
+   hypothesis, Canonicalize returns bytes and they equal canon of the denoted value *)
+Theorem C18_canon_m_cdom_nonvacuous :
+  all_cfixed repaired /\ cfg_strict cfg0 = true /\ p_valid root_ex = true /\ p_kind root_ex = KStruct /\
+  DataSize (p_size root_ex) mod 8 = 0 /\
+  exists v bs rl', den true msg_ex 0 [] root_ex v /\ cdom v = true /\ v <> VNull /\
+                   canonicalize cfg0 repaired 20 msg_ex 1000000 root_ex = (KOk bs, rl') /\ canon v = Some bs.
+Proof. exact canon_m_cdom_nonvacuous. Qed.
+Print Assumptions C18_canon_m_cdom_nonvacuous.
+
+(* the three claims about Canonicalize itself, unconditional on the proved domain *)
+Theorem C18_canon_m_layout_independent : forall fuel c fx m1 rl1 s1 v1 m2 rl2 s2 v2 bs1 bs2 r1 r2,
+  all_cfixed fx -> cfg_strict c = true -> msg_ok m1 -> msg_ok m2 -> wf_ptr m1 s1 -> wf_ptr m2 s2 ->
+  (p_valid s1 = true -> p_kind s1 = KStruct /\ DataSize (p_size s1) mod 8 = 0) ->
+  (p_valid s2 = true -> p_kind s2 = KStruct /\ DataSize (p_size s2) mod 8 = 0) ->
+  den true m1 0 [] s1 v1 -> den true m2 0 [] s2 v2 -> cdom v1 = true -> cdom v2 = true ->
+  nocap v1 = true -> value_eqs v1 v2 = true ->
+  canonicalize c fx fuel m1 rl1 s1 = (KOk bs1, r1) -> canonicalize c fx fuel m2 rl2 s2 = (KOk bs2, r2) ->
+  bs1 = bs2.
+Proof. exact canon_m_layout_independent. Qed.
+Print Assumptions C18_canon_m_layout_independent.
+
+Theorem C18_canon_m_value_preserved : forall fuel c fx m rl s v bs r,
+  all_cfixed fx -> cfg_strict c = true -> msg_ok m -> wf_ptr m s ->
+  (p_valid s = true -> p_kind s = KStruct /\ DataSize (p_size s) mod 8 = 0) ->
+  den true m 0 [] s v -> good v -> cdom v = true ->
+  canonicalize c fx fuel m rl s = (KOk bs, r) ->
+  exists v', cdecode (S (vdepth (norm v))) bs = Some v' /\ value_eqs v' v = true /\ value_eq v' v = true.
+Proof. exact canon_m_value_preserved. Qed.
+Print Assumptions C18_canon_m_value_preserved.
+
+Theorem C18_canon_m_idempotent : forall fuel c fx m rl s v bs r m' rl' s' v' bs' r',
+  all_cfixed fx -> cfg_strict c = true -> msg_ok m -> msg_ok m' -> wf_ptr m s -> wf_ptr m' s' ->
+  (p_valid s = true -> p_kind s = KStruct /\ DataSize (p_size s) mod 8 = 0) ->
+  (p_valid s' = true -> p_kind s' = KStruct /\ DataSize (p_size s') mod 8 = 0) ->
+  den true m 0 [] s v -> nocap v = true -> cdom v = true ->
+  canonicalize c fx fuel m rl s = (KOk bs, r) ->
+  den true m' 0 [] s' v' -> cdom v' = true -> value_eqs v v' = true ->
+  canonicalize c fx fuel m' rl' s' = (KOk bs', r') ->
+  bs' = bs.
+Proof. exact canon_m_idempotent. Qed.
+Print Assumptions C18_canon_m_idempotent.
 
 (* F04, the code as found: panic on a data-only struct list at the end of a cap == len
    segment, wrong bytes otherwise; the repaired model returns the specification's bytes *)
